@@ -586,7 +586,8 @@ class WJob:
 
 
 def save_execution(pid, name, v):
-    d = os.path.join(VERIF, "replays", pid)
+    import kanirun
+    d = os.path.join(VERIF, "replays" + kanirun.ALT, pid)
     os.makedirs(d, exist_ok=True)
     path = os.path.join(d, re.sub(r"\W+", "_", name + "-" + v["desc"])[:120] + ".json")
     json.dump(v, open(path, "w"), indent=1, default=str)
